@@ -599,6 +599,7 @@ static void sq_writable(unsigned c)
     }
   }
   /* the pending reply first, then every pending frame, once, in capture order, filtered, with its time stamp */
+  V_ASSERT(C19.send_calls <= C19_NIO, "seq_send_script_long_enough");                       /* harness bound: later send() calls are refused by the socket model */
   V_ASSERT(req->state == REQ_STATE_FORWARD && req->io.writeLen == 0, "seq_connection_kept");
   V_ASSERT(C19.send_calls - s0 == n_reply + SQ_np[c] && req->p_sliced == NULL, "seq_all_pending_frames_sent_once");
   if (n_reply) {
@@ -659,15 +660,16 @@ static void sq_disconnect(unsigned c)
 
 static void sq_service_req(unsigned c)
 {
-  PROXY_CLNT *a = W_cl[c]; vbi_bool taken; unsigned s0 = C19.send_calls;
+  PROXY_CLNT *a = W_cl[c]; vbi_bool taken; unsigned s0 = C19.send_calls, asked, k;
   if (!SQ_conn[c]) return;
   V_ASSERT(vbi_proxy_msg_is_idle(&a->io), "seq_schedule_request_on_idle_connection");      /* schedule error otherwise: a W event must flush the last reply first */
   a->msg_buf.head.type = MSG_TYPE_SERVICE_REQ; a->msg_buf.head.len = sizeof(VBIPROXY_MSG_HEADER) + sizeof(VBIPROXY_SERVICE_REQ);
   a->msg_buf.body.service_req.reset = SRESET; a->msg_buf.body.service_req.commit = 1; a->msg_buf.body.service_req.strict = 0;
   a->msg_buf.body.service_req.services = SREQ;
+  asked = SREQ; if (!SRESET) for (k = 0; k < 4; k++) asked |= a->services[k];             /* without reset the request adds to what the client asked for before */
   taken = vbi_proxyd_take_message(a, &a->msg_buf);
   V_ASSERT(taken && a->state == REQ_STATE_FORWARD && a->p_sliced == NULL, "seq_service_req_taken");
-  V_ASSERT((a->all_services & ~(unsigned) SREQ) == 0, "seq_service_grant_subset");
+  V_ASSERT((a->all_services & ~asked) == 0, "seq_service_grant_subset");
   SQ_np[c] = 0;                                           /* frames still queued for the client that changes its services may be dropped */
   if (proxy.dev[0].p_capture == NULL) { sq_drop_all(); V_REACH("device_closed"); }
   V_ASSERT(C19.send_calls == s0, "seq_request_sends_nothing_yet");
